@@ -663,7 +663,7 @@ type site struct {
 	Of       string // for slice elements / map entries: the Field of the container
 	Kind     string // leaf | struct | slice | map | object
 	Present  bool
-	Optional bool // omitempty
+	Optional bool   // omitempty
 	Elem     string // element type of a slice / value type of a map
 	KeyType  string // key type of a map
 	Keys     []string
@@ -857,7 +857,6 @@ func sitesOf(env *gobl.Envelope) []site {
 	w.fields(v, v.Type(), "", false)
 	return w.sites
 }
-
 
 // ---------------------------------------------------------------------------
 // JSON trees and pointers
@@ -1267,11 +1266,11 @@ type base struct {
 }
 
 var (
-	basesOnce    sync.Once
-	bases        []*base
-	baseByPath   map[string]*base
-	harvestType  map[string][]json.RawMessage
-	harvestField map[string][]string
+	basesOnce     sync.Once
+	bases         []*base
+	baseByPath    map[string]*base
+	harvestType   map[string][]json.RawMessage
+	harvestField  map[string][]string
 	allIdentities []json.RawMessage // every distinct tax identity of the corpus (not thinned)
 )
 
